@@ -87,6 +87,8 @@ def cex_to_text(cex):
         lines.append("reuse 1")
     if "modes" in cex:
         lines.append("modes " + " ".join(cex["modes"]))
+    if "checks" in cex:
+        lines.append("checks " + " ".join(cex["checks"]))
     if "fault" in cex:
         lines.append("fault %d %s" % (cex["fault"][0], cex["fault"][1]))
     if "block_size" in cex:
@@ -287,6 +289,17 @@ def family_crash(seed):
     fam.append({"oracle": "faults", "db": [P("a", "1"), ["plant"], P("b", "1"), F, C], "reuse": False})
     for c in fam:
         c["modes"] = ["sticky", "torn1", "torn", "tornm1"]
+        c["checks"] = ["further"]
+    return fam
+
+
+def family_crash_dir(seed):
+    """C11 (second sentence) bounded stand-in: the crash family, and at the end of every run the
+    database directory is compared with the current version (no orphan table file, no temp file, no
+    superseded manifest; write-ahead logs are not judged)."""
+    fam = family_crash(seed)
+    for c in fam:
+        c["checks"] = ["dircheck"]
     return fam
 
 
@@ -412,7 +425,8 @@ def _search_family(fam, repo):
 
 
 BOUNDS = {
-    "family_crash": "9 whole-database histories (the 5 of family_faults, 2 with values of 40000 and 70000 bytes, i.e. log records spanning 2-3 blocks of 32 KiB, and 2 in which an orphan table file, a temp file and a superseded manifest are dropped into the directory while the database is closed), each re-run once per counted file-system call and per crash mode (the call and everything after it fails; a failing write leaves 0 bytes, 1 byte, half or all but the last byte of its buffer); after the crash point the fault is cleared and the database is reopened, read, written once more and reopened again, and the directory is compared with the current version (table files, temp files, manifests; write-ahead logs are not judged); in-process state that survives the simulated crash is not reset (only the file system decides what the restarted database sees)",
+    "family_crash_dir": "the inputs of family_crash; after the crash point the fault is cleared, the database is reopened, written once more and reopened again, and then its directory is compared with the current version, sampled for up to 3 s: a table file that is not in the current version, a missing one, a temp file or a manifest other than the one CURRENT names is reported only if it persists over all samples; write-ahead logs are not judged",
+    "family_crash": "9 whole-database histories (the 5 of family_faults, 2 with values of 40000 and 70000 bytes, i.e. log records spanning 2-3 blocks of 32 KiB, and 2 in which an orphan table file, a temp file and a superseded manifest are dropped into the directory while the database is closed), each re-run once per counted file-system call and per crash mode (the call and everything after it fails; a failing write leaves 0 bytes, 1 byte, half or all but the last byte of its buffer); after the crash point the fault is cleared and the database is reopened, read, written once more and reopened again; in-process state that survives the simulated crash is not reset (only the file system decides what the restarted database sees)",
     "family_faults": "5 whole-database histories (3 hand-written, 2 pseudo-random per seed; at most 14 operations over 5 keys, with flushes, manual compactions and reopens, reuse_log_files on and off), each re-run once per counted file-system call (about 60 to 170 per history) with that call failing once, with that call and all later ones failing, and with that call failing once after half of its buffer was written (a torn write that is reported); only wrong results are judged - a panic or a hang of a faulted run is counted as not judged",
     "family_db_views": "whole-database histories of at most 85 operations over 7 keys (8 hand-written + 10 pseudo-random per seed); every live snapshot and the latest state read back through get, both scan directions, seek to every key, a zig-zag walk and 5 cursor scripts per key",
     "family_log_reader": "write-ahead-log byte streams built from the hand-written and seeded append / reopen / truncate / flip scripts of tools/replay.py (records up to 3 blocks)",
